@@ -215,7 +215,7 @@ def run(ctx):
     bad = p3.judge(ctx, "Failure", consts, cases_file, rf, env={"PASS": "judge", "JUDGE_CASES": str(cases_file), "TIER": ctx.tier}, defs=defs)
     for i, names in sorted(bad.items()):
         sc, ob = cases[i - 1], obs[i - 1]
-        ctx.violate("post:" + "+".join(sorted(names)) + ":" + sc["mode"].replace("remote_", ""),
+        ctx.violate("post:" + "+".join(sorted(names)) + ":" + sc["mode"].replace("remote_", "").replace("term_helper", "kill_helper"),
                     f"real cluster {sc['hosts']}x{sc['workers']}, fault {sc['mode']} in {sc['task'] or '-'}@{sc['point'] or '-'}: {sorted(names)}; observed {ob}",
                     {"scenario": sc, "observed": ob}, clause="+".join(sorted(names)))
     # ---- 2b. Bridge.recv_events on every drained batch of up to three messages (a failure report anywhere fails the run)
